@@ -74,6 +74,7 @@ func New(cfg *Config, pid peer.ID, peerName string, getState func(ctx context.Co
 		unpinCh:   make(chan *optracker.Operation, cfg.MaxPinQueueSize),
 	}
 
+	verifTracker(spt)
 	for i := 0; i < spt.config.ConcurrentPins; i++ {
 		go spt.opWorker(spt.pin, spt.pinCh)
 	}
@@ -87,6 +88,7 @@ func (spt *Tracker) opWorker(pinF func(*optracker.Operation) error, opChan chan 
 	for {
 		select {
 		case op := <-opChan:
+			verifOp(op, "Dequeue")
 			if cont := applyPinF(pinF, op); cont {
 				continue
 			}
@@ -104,15 +106,18 @@ func applyPinF(pinF func(*optracker.Operation) error, op *optracker.Operation) b
 	if op.Cancelled() {
 		// operation was cancelled. Move on.
 		// This saves some time, but not 100% needed.
+		verifOp(op, "Skip")
 		return true
 	}
 	op.SetPhase(optracker.PhaseInProgress)
 	err := pinF(op) // call pin/unpin
+	verifRet(op, err)
 	verifGate("returned", op)
 	if err != nil {
 		if op.Cancelled() {
 			// there was an error because
 			// we were cancelled. Move on.
+			verifOp(op, "Abandon")
 			return true
 		}
 		op.SetError(err)
@@ -129,6 +134,7 @@ func (spt *Tracker) pin(op *optracker.Operation) error {
 	defer span.End()
 
 	logger.Debugf("issuing pin call for %s", op.Cid())
+	verifOp(op, "CallStart")
 	err := spt.rpcClient.CallContext(
 		ctx,
 		"",
@@ -148,6 +154,7 @@ func (spt *Tracker) unpin(op *optracker.Operation) error {
 	defer span.End()
 
 	logger.Debugf("issuing unpin call for %s", op.Cid())
+	verifOp(op, "CallStart")
 	err := spt.rpcClient.CallContext(
 		ctx,
 		"",
@@ -182,9 +189,12 @@ func (spt *Tracker) enqueue(ctx context.Context, c *api.Pin, typ optracker.Opera
 		ch = spt.unpinCh
 	}
 
+	vq := verifQBegin()
 	select {
 	case ch <- op:
+		verifQEnd(vq, op, "Enqueue", len(ch))
 	default:
+		verifQEnd(vq, op, "QueueFull", len(ch))
 		err := ErrFullQueue
 		op.SetError(err)
 		op.Cancel()
@@ -217,6 +227,7 @@ func (spt *Tracker) Shutdown(ctx context.Context) error {
 	}
 
 	logger.Info("stopping StatelessPinTracker")
+	verifShutdown(spt)
 	spt.cancel()
 	close(spt.rpcReady)
 	spt.wg.Wait()
@@ -248,6 +259,7 @@ func (spt *Tracker) Track(ctx context.Context, c *api.Pin) error {
 			return nil // ongoing unpin
 		}
 		err := spt.unpin(op)
+		verifRet(op, err)
 		op.Cancel()
 		if err != nil {
 			op.SetError(err)
